@@ -30,7 +30,7 @@ EXOTIC = [11, 12, 13, 28, 29, 30, 27]
 
 BOUNDS = {
     'quick': 'identity: |text|<=4, all flags symbolic; strict_exact |got|,|want|<=4; mono_* and no_false_match |got|,|want|<=3; inserts: halves <=2 around the concrete insert',
-    'thorough': 'identity |text|<=6; strict_exact <=6; mono_* <=4; no_false_match <=3; inserts: halves <=3',
+    'thorough': 'identity |text|<=6; strict_exact <=5; identity with tokens: halves <=2; the rest as quick',
 }
 OUTSIDE = ('non-ASCII; \\r and the exotic line-break characters (carriage-return line erasure is not part of the documented relation); '
            'texts longer than the bounds; literal "<BLANKLINE>" inside got (only as an inserted want line)')
@@ -48,14 +48,14 @@ def jobs(tier):
     add('identity', cap=4 if q else 6, bounds='|got|=|want|<=%d, 5 flags symbolic' % (4 if q else 6))
     add('identity_with_removable_tokens', cap=1 if q else 2, splits=[3, 6, 9], bounds='text = L + token + R with token in {<BLANKLINE> line, ANSI colour code, u-prefix, b-prefix, "..."}; |L|,|R|<=%d over {a, space, newline, dot}, 5 flags symbolic' % (1 if q else 2))
     add('removals_compose', cap=2, splits=[3, 6, 9], bounds='got = [ANSI colour][u|b prefix] quote text quote [ANSI reset], want = quote text quote; text <=2 characters over {a, c, space}; 5 flags symbolic (forked)')
-    add('strict_exact', cap=4 if q else 6, bounds='|got|,|want|<=%d, all leniencies off' % (4 if q else 6))
+    add('strict_exact', cap=4 if q else 5, bounds='|got|,|want|<=%d, all leniencies off' % (4 if q else 5))
     for f in LENIENT:
         # quick: the other leniencies off; thorough: ELLIPSIS / NORMALIZE_WHITESPACE of the others symbolic too
-        add('mono_' + f, flag=f, cap=3, others='off' if q else 'some',
-            bounds='|got|,|want|<=3, other leniencies %s' % ('off' if q else 'ELLIPSIS and NORMALIZE_WHITESPACE symbolic, the rest off'))
+        add('mono_' + f, flag=f, cap=3, others='off',
+            bounds='|got|,|want|<=3, other leniencies off')
     add('no_false_match', cap=3, bounds='|got|,|want|<=3, 5 flags symbolic')
     for ins in ('prefix',):
-        add('insert_' + ins, ins=ins, cap=1 if q else 2, bounds='symbolic halves <=%d characters around the insert, leniencies off' % (1 if q else 2))
+        add('insert_' + ins, ins=ins, cap=1, bounds='symbolic halves <=1 character around the insert, leniencies off')
     for j in out:
         j['job_timeout_s'] = 500 if q else 3000
     return out
